@@ -100,6 +100,28 @@ def extra(report, env):
                 cases += 1
                 if bad and len(fails) < 5:
                     fails.append({'formula': text, 'reentrant': [order, second_listener, want], 'detail': bad})
+    # what a reference raises does not depend on the references resolved before it on the same parser (reversed-corner ranges, the same
+    # corner cells on their own, ranges sharing a corner ...): each event log equals the one a fresh parser gives
+    hist_pool = ['A1', 'B2', '$B$2', 'a1', 'B2:A1', 'A1:B2', 'A3:C1', 'A3:D4', '$B5:A$2', 'B5:A2', 'SUM(B2:A1)', 'SUM(A1:B2)+B2', 'C1', 'A3', 'D4', 'B5', 'A2',
+                 'COUNT(A3:C1)', 'COUNT(A3:D4)', 'SUM($B5:A$2)', 'x', 'SUM(x,A1)']
+    fresh_log = {}
+    for f in hist_pool:
+        q, lg = recorder()
+        q.set_variable('x', 1)
+        q.parse(f)
+        fresh_log[f] = list(lg)
+    for _ in range(200 if env['tier'] == 'quick' else 3000):
+        q, lg = recorder()
+        q.set_variable('x', 1)
+        seq = [rng.choice(hist_pool) for _ in range(rng.randint(2, 6))]
+        for pos, f in enumerate(seq):
+            del lg[:]
+            q.parse(f)
+            cases += 1
+            if lg != fresh_log[f]:
+                if len(fails) < 5:
+                    fails.append({'formula': f, 'history': seq[:pos], 'detail': 'after %r on the same parser %r raises %r, on a fresh parser %r' % (seq[:pos], f, lg, fresh_log[f])})
+                break
     # reference walk: seeded formulas in which the same variable / cell / range / function occurs several times; every occurrence
     # raises its own event (post-order, left to right) and takes the value its own setter was given
     for _ in range(300 if env['tier'] == 'quick' else 5000):
@@ -115,7 +137,7 @@ def extra(report, env):
         cases += 1
         if bad and len(fails) < 5:
             fails.append({'formula': text, 'walk': tree, 'silent': silent, 'detail': 'listeners silent on events %r: %s' % (silent, bad)})
-    bounded(report, 'C10.events', 'listeners re-entering the same parser while a cell is being resolved (3 orders of hand-over x with/without a second listener x 8 formulas), 7 columns x 5 rows x 4 $-patterns, 18 ranges (all corner orders), 4 ordering formulas, 9 setter sequences x 4 events, seeded formulas with '
+    bounded(report, 'C10.events', 'event logs after seeded histories of 2..6 references on one parser (reversed-corner ranges, shared corners) against a fresh parser, listeners re-entering the same parser while a cell is being resolved (3 orders of hand-over x with/without a second listener x 8 formulas), 7 columns x 5 rows x 4 $-patterns, 18 ranges (all corner orders), 4 ordering formulas, 9 setter sequences x 4 events, seeded formulas with '
             'repeated references (<= 6 atoms from 2 variables, 2 cells, 1 range, SUM / MAX calls) against a reference walk: one event per occurrence, '
             'each occurrence valued by its own setter, and again with listeners silent on a random 40% of the events (blank / the variable own value)', cases, fails)
 
@@ -256,6 +278,23 @@ def walk_case(tree, text, silent=()):
 
 
 def replay(rp):
+    if rp.get('history') is not None:
+        from pyvc import e2e
+        logs = []
+        for fresh in (True, False):
+            p = e2e.new_parser()
+            p.set_variable('x', 1)
+            lg = []
+            p.on('callCellValue', lambda cell, s: lg.append(('cell', cell.label, cell.row.index, cell.col.index, cell.row.is_absolute, cell.col.is_absolute)))
+            p.on('callRangeValue', lambda a, b, s: lg.append(('range', a.label, a.row.index, a.col.index, b.label, b.row.index, b.col.index)))
+            if not fresh:
+                for f in rp['history']:
+                    p.parse(f)
+            del lg[:]
+            p.parse(rp['formula'])
+            logs.append([e for e in lg])
+        print('events of %r on a fresh parser %r ; after %r: %r' % (rp['formula'], logs[0], rp['history'], logs[1]))
+        return 0 if logs[0] == logs[1] else 1
     if rp.get('reentrant'):
         bad = reentrant_case(rp['reentrant'][0], rp['reentrant'][1], rp['formula'], rp['reentrant'][2])
         print('parse(%r): %s' % (rp['formula'], bad or 'as stated'))
